@@ -335,8 +335,9 @@ fn exec_f64<P: Px>(c: &RCase, stats: &mut Stats, viols: &mut Vec<Viol>) {
         stats.count("boxes_non_finite", 1);
     }
     let opts: ResizeOptions = c.options();
-    for ext in [Ext::None, Ext::Avx2] {
-        let r = resize_vec::<P>(&src, c.sw, c.sh, c.dw, c.dh, &opts, ext);
+    // a borrowed TypedImageRef source (its own row stepping) and an owned TypedImage source (the trait's default row stepping)
+    for (ext, owned) in [(Ext::None, false), (Ext::Avx2, false), (Ext::Avx2, true)] {
+        let r = if owned { resize_vec_typed_src::<P>(&src, c.sw, c.sh, c.dw, c.dh, &opts, ext) } else { resize_vec::<P>(&src, c.sw, c.sh, c.dw, c.dh, &opts, ext) };
         match r {
             Ok(_) => {
                 if !inside && !knife && !zero_area {
